@@ -45,6 +45,22 @@ def scenarios(tier, seed):
     return out
 
 
+def conc_scenarios(tier):
+    """A lifecycle transition interleaved with in-flight and QUEUED operations (all release orders)."""
+    from checks.c05 import P0, P1, U, R, A, FL, X, IDX
+    out = []
+    sets = [[A(5)], [U(1, 5)], [R(2)], [X(3)], [FL], [FL, A(5)], [FL, U(1, 5)], [A(5), FL], [U(1, 5), U(1, 6)],
+            [U(1, 5), R(1)], [A(5), A(6)], [FL, X(3)]]
+    if tier == "thorough":
+        sets += [[FL, A(5), U(1, 5)], [U(1, 5), FL, A(5)], [R(2), FL, X(3)], [FL, FL, A(5)]]
+    for procs in sets:
+        for t in ("ro", "close", "close_collection"):
+            for prefix in (P0, P1):
+                out.append({"init_idx": IDX, "prefix": prefix, "procs": procs, "post_reads": False,
+                            "transition": t, "cap": 1500})
+    return out
+
+
 def run(tier):
     t0 = time.time()
     vlib.build_harness()
@@ -67,12 +83,25 @@ def run(tier):
                               "line_in_trace": fl["line_in_trace"], "event": fl["event"], "trace": fl["trace"],
                               "module": "CollectionLifeTrace"})
         n_viol += 1
+    csc = conc_scenarios(tier)
+    cst = cc.drive_and_validate("lifeconc", csc, "", wd, "lifeconc", cfg="CollectionConcTrace.cfg",
+                                driver="drive_conc", module="CollectionConcTrace")
+    n_exh = sum(1 for s in cst["per_scenario"] if s["exhaustive"])
+    vlib.log(f"[C06] T transition x in-flight/queued operations: scenarios={cst['scenarios']} (exhaustive: {n_exh}) "
+             f"schedules={cst['traces']} states={cst['states']} failures={len(cst['failures'])}")
+    for fl in cst["failures"]:
+        vlib.violation(PROP, {"property": PROP, "kind": "trace", "tag": fl["tag"], "scenario": csc[fl["tag"]["s"]],
+                              "reason": fl["reason"], "line_in_trace": fl["line_in_trace"], "event": fl["event"],
+                              "trace": fl["trace"], "module": "CollectionConcTrace"})
+        n_viol += 1
     cov = {
-        "states": mc["states"] + st["states"],
+        "states": mc["states"] + st["states"] + cst["states"],
         "transitions": mc["transitions"],
-        "traces_validated_against_impl": st["traces"],
-        "evaluations": st["traces"],
-        "distinct_nontrivial": st["drop_points"] + st["retire_scenarios"],
+        "traces_validated_against_impl": st["traces"] + cst["traces"],
+        "evaluations": st["traces"] + cst["traces"],
+        "distinct_nontrivial": st["drop_points"] + st["retire_scenarios"] + cst["traces"],
+        "interleaved_transition_schedules": cst["traces"],
+        "interleaved_transition_scenarios": cst["scenarios"],
         "rule": "one trace per (prefix, transition in close/close_collection/ro/db_ro/delete) with every mutating API "
                 "called on the retained handle before and after set_read_only(false) and after a reopen, and one trace "
                 "per (prefix, mutating API, k) where the call's future is dropped after k polls (every backend call is "
@@ -86,7 +115,7 @@ def run(tier):
         "trace_events": st["events"],
     }
     vlib.write_evidence(PROP, tier, "model_checking", cov, time.time() - t0, n_viol, assumptions=[
-        "sequential callers: the interleaving of a transition with in-flight or queued operations is not enumerated yet",
+        "interleavings of a transition with 1-2 (thorough: 3) in-flight or queued operations on a single-threaded executor",
         "dropping delete_collection / close_collection futures is not enumerated yet",
         "suspension points = backend calls (tokio locks are uncontended in sequential runs)",
     ])
@@ -101,7 +130,8 @@ def replay(payload):
     with open(p, "w") as f:
         for ev in payload["trace"]:
             f.write(json.dumps(ev, separators=(",", ":")) + "\n")
-    res = cc.validate_file(p, wd, "replay", cfg="CollectionLifeTrace.cfg", module="CollectionLifeTrace", max_failures=0)
+    mod = payload.get("module", "CollectionLifeTrace")
+    res = cc.validate_file(p, wd, "replay", cfg=mod + ".cfg", module=mod, max_failures=0)
     for fl in res["failures"]:
         print("REJECTED:", fl["reason"], "at line", fl["line_in_trace"], json.dumps(fl["event"])[:300])
     return 1 if res["failures"] else 0
